@@ -192,6 +192,18 @@ class Gen:
         if depth == 0:
             for _ in range(self.rng.choice([0, 0, 1, 2])):
                 lines.append(k("var") + " " + self.ident("v") + " : " + self.basic_type())
+            # declaration keywords INSIDE a body: none of these is a top-level declaration, none may reach the outline
+            if self.rng.random() < 0.25:
+                n1, n2, n3 = self.ident("v"), self.ident("p"), self.ident("q")
+                lines.append(self.rng.choice([
+                    k("var") + " %s : " % n1 + k("proc") + "(%s : int4, %s : int4)" % (n2, n3),
+                    k("var") + " %s : " % n1 + k("procedure") + "(%s : int4)" % n2,
+                    k("var") + " %s : " % n1 + k("func") + "(%s : int4) " % n2 + k("return") + " int4",
+                    k("var") + " %s : " % n1 + k("function") + "(%s : int4) " % n2 + k("return") + " int4",
+                    k("const") + " c%s = 1" % n1,
+                    k("type") + " t%s : int4" % n1,
+                    k("var") + " %s : " % n1 + k("refto") + " aOther",
+                ]))
         for _ in range(self.rng.randint(0, 4)):
             r = self.rng.random()
             if r < 0.3:
